@@ -192,7 +192,25 @@ def run(ctx):
             st = [Tq.rvalue(r) for (bb, si, r) in pp.defs().get(2, []) if r["k"] not in ("partial", "call")]
             okl = okl and any(v[0] == "agg" and v[1][2] == "Some" and v[2][0][0] == "call" and "Sub" in v[2][0][1] for v in st)
         ctx.ob("R04.4", "rearm-loop-covered-by-deadline", okl, pp.loc(0), "the > i32::MAX ms re-arm loop re-checks the original deadline every iteration and re-arms with deadline - now")
-        # cnt != 0 or !overflow => return the count
+        # what leaves the loop and what re-arms: a positive count is returned at once; a zero count is returned only when the whole requested
+        # timeout was armed (no overflow) or the deadline has passed; the loop re-arms only when nothing was ready *and* the timeout was clipped
+        is_cnt = lambda t_: M.contains(t_, lambda u: u[0] == "call" and u[1] == "posix::check_err") and M.contains(t_, lambda u: u[0] == "call" and u[1] == "libc::poll")
+        zc, nzc = zero_test_edges(pp, Tq, is_cnt)
+        is_ovf = lambda c_: M.noref(c_)[0] == "field" and M.noref(c_)[2] == "1" and M.contains(c_, lambda u: u[0] == "call" and u[1] == "std::option::Option::<T>::unwrap_or")
+        ov_t, ov_f = bool_edges(pp, Tq, is_ovf, True), bool_edges(pp, Tq, is_ovf, False)
+        cnt_rets = []
+        for (bb_, si_, v_, r_) in result_variants(pp, M.Explore(pp)):
+            if v_ == "Ok" and const_of(Tq.operand(r_["ops"][0])) is None:
+                cnt_rets.append(bb_)
+        okr = bool(cnt_rets) and bool(nzc) and bool(ov_f) and all(dominated_by_edges(pp, b_, nzc + ov_f) for b_ in cnt_rets)
+        ctx.ob("R04.4", "count-returned-iff-ready-or-timeout-fully-armed", okr, pp.loc(cnt_rets[0] if cnt_rets else 0),
+               "Ok(cnt) is returned only when cnt != 0, or when the armed timeout was the whole remaining time (overflow == false): returning 0 after a clipped "
+               "timeout reports 'nothing ready' long before the limit")
+        rearm = [bb_ for (bb_, si_, r_) in pp.defs().get(2, []) if r_["k"] not in ("partial",) and bb_ in (loops[0] if len(loops) == 1 else set())]
+        oka = bool(rearm) and bool(zc) and bool(ov_t) and all(dominated_by_edges(pp, b_, zc) and dominated_by_edges(pp, b_, ov_t) for b_ in rearm)
+        ctx.ob("R04.4", "rearm-only-if-nothing-ready-and-clipped", oka, pp.loc(rearm[0] if rearm else 0),
+               "the loop goes round again (timeout := deadline - now) only when poll reported nothing *and* the timeout had been clipped to i32::MAX ms; "
+               "re-arming with a ready descriptor spins forever without ever returning the count")
     # ---- R04.5 partial results travel with the error ------------------------------------------------------------------
     r0 = Tr.local(0)
     good = r0[0] == "agg" and r0[1] == "tuple" and len(r0[2]) == 2
